@@ -45,8 +45,9 @@ def generated_fragments():
     try:
         from pyab_experiment.utils.wraper_functions import parse_source
         from pyab_experiment.codegen.python.python_generator import PythonCodeGen
-        for expose in (False, True):
-            code = PythonCodeGen(parse_source(probe), expose_experiment_variant_function=expose).generate()
+        nosalt = 'def probe2 { splitters: fa, fb return "a" weighted 1, "b" weighted 2 }'
+        for expose, src in ((False, probe), (True, probe), (False, nosalt), (True, nosalt)):
+            code = PythonCodeGen(parse_source(src), expose_experiment_variant_function=expose).generate()
             for line in code.split("\n"):
                 t = line.strip()
                 if len(t) >= 6:
@@ -56,9 +57,56 @@ def generated_fragments():
                         out += [t[:len(t) // 2], t[len(t) // 2:]]
     except Exception:  # noqa
         pass
+    # plus the fragments the generator emitted when this harness was written (text copied from generated code of an older version is
+    # exactly what a user may have pasted into a salt or a label)
+    try:
+        import json as _json
+        import os as _os
+        out += _json.load(open(_os.path.join(_os.path.dirname(_os.path.abspath(__file__)), "fragments_baseline.json")))
+    except Exception:  # noqa
+        pass
     out = [x for x in dict.fromkeys(out) if "\n" not in x and not ('"' in x and "'" in x)]
     _FRAG_CACHE.append(out)
     return out
+
+
+_WORDS_CACHE = []
+
+
+def source_words():
+    """every identifier, attribute name, dict key and short string constant in the package's own modules (sly excluded): candidates for
+    placeholders and markers the library may use internally while building its output"""
+    if _WORDS_CACHE:
+        return _WORDS_CACHE[0]
+    import ast as _ast
+    import os
+    words = set()
+    try:
+        import pyab_experiment
+        root = os.path.dirname(pyab_experiment.__file__)
+        for d, dirs, files in os.walk(root):
+            dirs[:] = [x for x in dirs if x not in ("sly", "__pycache__")]
+            for f in files:
+                if f.endswith(".py"):
+                    try:
+                        tree = _ast.parse(open(os.path.join(d, f), encoding="utf-8").read())
+                    except Exception:  # noqa
+                        continue
+                    for n in _ast.walk(tree):
+                        if isinstance(n, _ast.Name):
+                            words.add(n.id)
+                        elif isinstance(n, _ast.Attribute):
+                            words.add(n.attr)
+                        elif isinstance(n, _ast.arg):
+                            words.add(n.arg)
+                        elif isinstance(n, _ast.keyword) and n.arg:
+                            words.add(n.arg)
+                        elif isinstance(n, _ast.Constant) and isinstance(n.value, str) and 1 <= len(n.value) <= 60 and "\n" not in n.value:
+                            words.add(n.value)
+    except Exception:  # noqa
+        pass
+    _WORDS_CACHE.append(sorted(w for w in words if not ('"' in w and "'" in w)))
+    return _WORDS_CACHE[0]
 
 
 _HOST_CACHE = []
@@ -203,6 +251,18 @@ def sweep_cases(rng, fraction=1.0):
             sub = ("elif", ("cmp", ("id", "x"), "==", ("lit", lit_int(i))), one("b%d" % i), sub)
         add(Program("e", None, ["u"], ("if", ("cmp", ("id", "x"), "==", ("lit", lit_int(0))), one("b0"), sub), {"u": "any", "x": "int"}),
             [{"u": 1, "x": v} for v in (0, 1, k // 2, k, k + 1)])
+    for k in list(range(1, 60)) + list(range(60, 199, 3)) + [197, 198]:          # boolean operator chain, with a group of the OTHER operator at either end
+        if not keep():
+            continue
+        inner_op, outer_op = rng.choice([("or", "and"), ("and", "or")])
+        chain = ("cmp", ("id", "x"), "==", ("lit", lit_int(0)))
+        for i in range(1, k):
+            chain = (inner_op, chain, ("cmp", ("id", "x"), "==" if inner_op == "or" else "!=", ("lit", lit_int(i if inner_op == "or" else -i))))
+        tail = ("cmp", ("id", "y"), "==", ("lit", lit_int(1)))
+        pred = (outer_op, chain, tail) if rng.random() < 0.5 else (outer_op, tail, chain)
+        cond = ("if", pred, one("T"), ("else", one("F")))
+        add(Program("e", None, ["u"], cond, {"u": "any", "x": "int", "y": "int"}),
+            [{"u": 1, "x": xv, "y": yv} for xv in (0, k - 1, k // 2, k, -1) for yv in (1, 2)])
     for k in range(1, 131):          # groups per return
         if not keep():
             continue
